@@ -122,9 +122,11 @@ Qed.
 
 (** ** B2. A value-requiring flag left without a value raises.
     The last token of the command line is an exact flag spelling of the current
-    context, for an argument that takes a (non-optional) value, is not a list
-    (F-C07c) and has not been given a value before (F-C07d) -- exactly the
-    complement of the two findings.  Then the parse fails. *)
+    context, for an argument that takes a (non-optional) value.  Then the parse
+    fails -- whatever the argument already holds (list kind, given before by
+    flag or positionally): since repair 9120dc5 [complete_flag] judges by
+    [flag_got_value], which [switch_to_flag] has just reset.  (Before the repair
+    this needed the guard [r_raw r = false], the complement of F-C07c/d.) *)
 Lemma get_arg_put_other m f r f' :
   f <> f' -> get_arg (put_arg m f r) f' = get_arg m f'.
 Proof.
@@ -145,17 +147,16 @@ Theorem dangling_value_flag_raises p f1 m0 pre m1 c k t i r :
   clean_flag t = true ->
   find_flag (rc_args c) t = Some i -> nth_error (rc_args c) i = Some r ->
   takes_value (r_spec r) = true -> a_optional (r_spec r) = false ->
-  r_raw r = false ->
   fails (parse_argv p (pre ++ [t])).
 Proof.
-  intros N L Nd St Un Cu Gc C F Nr Tv No Rw.
+  intros N L Nd St Un Cu Gc C F Nr Tv No.
   assert (CC : cur_ctx m1 = Some c) by (unfold cur_ctx; rewrite Cu; exact Gc).
   assert (GA : get_arg m1 (k, i) = Some r) by (unfold get_arg; cbn [fst snd]; rewrite Gc; exact Nr).
   destruct (step p m1 t) as [[m2 pushed]|e] eqn:S.
   2:{ destruct (loop_prefix_step_error p f1 m0 pre m1 t [] e L S) as [f Lf].
       rewrite (parse_argv_of_loop p _ m0 f _ Nd N Lf). exact Logic.I. }
-  (* the step succeeded: the flag is now pending, its argument still without value *)
-  assert (Post : pushed = [] /\ m_flag m2 = Some (k, i) /\ get_arg m2 (k, i) = Some r).
+  (* the step succeeded: the flag is now current and has not got a value *)
+  assert (Post : pushed = [] /\ m_flag m2 = Some (k, i) /\ m_got m2 = false /\ get_arg m2 (k, i) = Some r).
   { revert S. unfold step, bind. rewrite (clean_flag_presplit m1 t C Un).
     assert (Rb : rollback m1 t (t, []) = Ok (t, [])).
     { unfold rollback. destruct (waiting m1); [|reflexivity]. cbv zeta.
@@ -175,7 +176,7 @@ Proof.
     { revert CF. unfold complete_flag.
       destruct (m_flag m1) as [f0|] eqn:Fl; [|intros [= <-]; repeat split; auto; try congruence].
       destruct (flag_arg m1) as [r0|] eqn:FA; [|intros [= <-]; repeat split; auto; try congruence].
-      destruct (takes_value (r_spec r0) && negb (r_raw r0) && negb (a_optional (r_spec r0))) eqn:E1;
+      destruct (takes_value (r_spec r0) && negb (m_got m1) && negb (a_optional (r_spec r0))) eqn:E1;
         [discriminate|].
       destruct (negb (r_raw r0) && a_optional (r_spec r0)) eqn:E2;
         [|intros [= <-]; repeat split; auto; try congruence].
@@ -208,7 +209,7 @@ Proof.
     rewrite (Fb cb eq_refl).
     assert (Gs : get_arg (set_flag mb (Some (k, i)) false) (k, i) = Some r) by exact Gb.
     rewrite Gs, Tv. intros [= <- <-]. repeat split; auto. }
-  destruct Post as [-> [Fl2 G2]].
+  destruct Post as [-> [Fl2 [Got2 G2]]].
   destruct (loop_prefix_last p f1 m0 pre m1 t m2 L S) as [f Lf].
   rewrite (parse_argv_of_loop p _ m0 f _ Nd N Lf).
   (* finish: complete_flag sees a value flag without value *)
@@ -217,7 +218,8 @@ Proof.
   unfold bind, enter_state, bind, complete_flag.
   change (m_flag (set_state m2 SEnd)) with (m_flag m2). rewrite Fl2.
   unfold flag_arg. change (m_flag (set_state m2 SEnd)) with (m_flag m2). rewrite Fl2.
-  change (get_arg (set_state m2 SEnd) (k, i)) with (get_arg m2 (k, i)). rewrite G2, Tv, Rw, No.
+  change (get_arg (set_state m2 SEnd) (k, i)) with (get_arg m2 (k, i)).
+  change (m_got (set_state m2 SEnd)) with (m_got m2). rewrite G2, Tv, Got2, No.
   exact Logic.I.
 Qed.
 
